@@ -124,6 +124,83 @@ Proof.
     apply Nat.mod_small. lia.
 Qed.
 
+(* ---------------------------------------------------------------- several checks at several layers *)
+(* a check (i, g): the predicate g must hold at every position the verifier reaches after i foldings (1 <= i <= k;
+   these live in the domain of size n * N^(k-i)) *)
+Definition level_size (n N k i : nat) : nat := n * N ^ (k - i).
+
+Definition pass_checks (cs : list (nat * (nat -> bool))) (n N k : nat) (ps : list nat) : bool :=
+  forallb (fun c => forallb (snd c) (fold_chain (fst c) ps (n * N ^ k) N)) cs.
+
+(* a single LDE position is fine when it reduces into the good set of every check *)
+Definition pos_ok_checks (cs : list (nat * (nat -> bool))) (n N k : nat) (p : nat) : bool :=
+  forallb (fun c => snd c (p mod level_size n N k (fst c))) cs.
+
+Lemma forallb_swap {A B} (h : A -> B -> bool) (la : list A) (lb : list B) :
+  forallb (fun a => forallb (h a) lb) la = forallb (fun b => forallb (fun a => h a b) la) lb.
+Proof.
+  apply eq_true_iff_eq. rewrite !forallb_forall. split.
+  - intros H b Hb. apply forallb_forall. intros a Ha. specialize (H a Ha). rewrite forallb_forall in H. now apply H.
+  - intros H a Ha. apply forallb_forall. intros b Hb. specialize (H b Hb). rewrite forallb_forall in H. now apply H.
+Qed.
+
+Lemma level_split n N k i : i <= k -> n * N ^ k = level_size n N k i * N ^ i.
+Proof. intros H. unfold level_size. rewrite <- Nat.mul_assoc, <- Nat.pow_add_r. do 2 f_equal. lia. Qed.
+
+Theorem pass_checks_pointwise : forall cs n N k ps, N <> 0 -> n <> 0 ->
+  (forall c, In c cs -> fst c <= k) -> (forall p, In p ps -> p < n * N ^ k) ->
+  pass_checks cs n N k ps = forallb (pos_ok_checks cs n N k) ps.
+Proof.
+  intros cs n N k ps HN Hn Hcs Hps. unfold pass_checks, pos_ok_checks.
+  rewrite <- (forallb_swap (fun c p => snd c (p mod level_size n N k (fst c))) cs ps).
+  assert (E : forall c, In c cs ->
+            forallb (snd c) (fold_chain (fst c) ps (n * N ^ k) N)
+            = forallb (fun p => snd c (p mod level_size n N k (fst c))) ps).
+  { intros c Hc. pose proof (Hcs c Hc) as Hi. rewrite (level_split n N k (fst c) Hi).
+    apply (forallb_fold_chain (snd c) (fst c) ps (level_size n N k (fst c)) N HN).
+    - apply Nat.neq_mul_0. split; [assumption | now apply Nat.pow_nonzero].
+    - intros p Hp. rewrite <- (level_split n N k (fst c) Hi). now apply Hps. }
+  apply eq_true_iff_eq. rewrite !forallb_forall. split; intros H c Hc; specialize (H c Hc).
+  - now rewrite <- (E c Hc).
+  - now rewrite (E c Hc).
+Qed.
+
+Lemma filter_length_imp {A} (g h : A -> bool) l : (forall x, g x = true -> h x = true) ->
+  length (filter g l) <= length (filter h l).
+Proof.
+  intros H. induction l as [|a l IH]; cbn; [lia|]. destruct (g a) eqn:E.
+  - rewrite (H a E). cbn. lia.
+  - destruct (h a); cbn; lia.
+Qed.
+
+(* exact count over ALL checks, and the upper bound given by any single check *)
+Theorem passing_vectors_all_checks : forall cs n N k q, N <> 0 -> n <> 0 -> (forall c, In c cs -> fst c <= k) ->
+  let D := n * N ^ k in
+  let U := length (filter (fun p => negb (pos_ok_checks cs n N k p)) (seq 0 D)) in
+  length (filter (pass_checks cs n N k) (vectors D q)) = (D - U) ^ q /\
+  length (vectors D q) = D ^ q /\
+  forall i g, In (i, g) cs ->
+    let bad := length (filter (fun x => negb (g x)) (seq 0 (level_size n N k i))) in
+    (D - U) ^ q <= (D - bad * N ^ i) ^ q.
+Proof.
+  intros cs n N k q HN Hn Hcs D U. split; [|split; [apply vectors_length|]].
+  - rewrite (filter_ext_in _ (forallb (pos_ok_checks cs n N k))).
+    2:{ intros ps Hps. apply pass_checks_pointwise; try assumption. intros p Hp. eapply vectors_entries; eassumption. }
+    rewrite passing_vectors_count. f_equal.
+    pose proof (filter_partition_length (pos_ok_checks cs n N k) (seq 0 D)) as H. rewrite seq_length in H. fold U in H. lia.
+  - intros i g Hin bad. apply Nat.pow_le_mono_l.
+    pose proof (filter_partition_length (pos_ok_checks cs n N k) (seq 0 D)) as H. rewrite seq_length in H. fold U in H.
+    assert (Hi : i <= k) by (apply (Hcs (i, g) Hin)).
+    assert (Hle : length (filter (pos_ok_checks cs n N k) (seq 0 D))
+                  <= length (filter (fun p => g (p mod level_size n N k i)) (seq 0 D))).
+    { apply filter_length_imp. intros x Hx. unfold pos_ok_checks in Hx. rewrite forallb_forall in Hx. apply (Hx (i, g) Hin). }
+    unfold D in Hle at 2. rewrite (level_split n N k i Hi) in Hle.
+    rewrite preimage_count in Hle by (apply Nat.neq_mul_0; split; [assumption | now apply Nat.pow_nonzero]).
+    pose proof (filter_partition_length g (seq 0 (level_size n N k i))) as Hg. rewrite seq_length in Hg. fold bad in Hg.
+    assert (HD : D = level_size n N k i * N ^ i) by (apply level_split; assumption).
+    nia.
+Qed.
+
 Section Check.
 Context {F : Type} (O : FOps F).
 Variable gen_offset : F.
@@ -171,5 +248,52 @@ Proof.
   rewrite preimage_count by assumption.
   pose proof (filter_partition_length (good_position R g E) (seq 0 n)) as H. rewrite seq_length in H.
   fold bad in H. nia.
+Qed.
+(* ---------------------------------------------------------------- all query-phase checks of the verifier *)
+(* Layer functions committed before the positions are drawn: Es = [E_0; ...; E_(k-1)] (E_j on the domain of size
+   n * N^(k-j)), challenges alphas, remainder R.  [foldval] is the value the verifier carries out of a layer: the
+   interpolant of the opened row at alpha (Model/Fri.v layer_step).  The comparison `evaluations != query_values`
+   (InvalidLayerFolding(j)) at layer j >= 1 and the remainder comparison (InvalidRemainderFolding) are, position by
+   position: *)
+Variable roots : list F.
+Variable N : nat.
+Definition foldval (g : F) (E : list F) (rl : nat) (alpha : F) (x : nat) : F :=
+  interp_eval O (row_xs O gen_offset roots g x) (row_of (fzero O) N rl E x) alpha.
+
+(* layer check: the committed next function agrees with the fold of the previous one at x *)
+Definition good_fold (g : F) (Eprev Enext : list F) (rl : nat) (alpha : F) (x : nat) : bool :=
+  feqb O (foldval g Eprev rl alpha x) (nth x Enext (fzero O)).
+(* remainder check against the fold of the last committed function *)
+Definition good_rem (R : list F) (gk gprev : F) (Eprev : list F) (rl : nat) (alpha : F) (x : nat) : bool :=
+  feqb O (eval_horner O R (fmul O gen_offset (fexp O gk x))) (foldval gprev Eprev rl alpha x).
+
+Lemma layer_compare_forallb g Eprev Enext rl alpha : forall P,
+  list_feqb O (map (foldval g Eprev rl alpha) P) (map (fun p => nth p Enext (fzero O)) P)
+  = forallb (good_fold g Eprev Enext rl alpha) P.
+Proof. induction P as [|p P IH]; cbn [map list_feqb forallb]; [reflexivity | now rewrite IH]. Qed.
+
+Lemma remainder_compare_forallb R gk gprev Eprev rl alpha : forall P,
+  remainder_check O gen_offset R gk P (map (foldval gprev Eprev rl alpha) P) = forallb (good_rem R gk gprev Eprev rl alpha) P.
+Proof. induction P as [|p P IH]; cbn [map remainder_check forallb]; [reflexivity | now rewrite IH]. Qed.
+
+(* fri_query_counting_all_checks_partial: the checks of the whole query phase as a list cs of (level, predicate) — level j for
+   the layer comparison j (good_fold), level k for the remainder (good_rem), each a predicate on the positions reached after
+   that many foldings.  Then (1) the conjunction of the verifier's comparisons on a position vector equals pass_checks
+   (by the two lemmas above, comparison by comparison), (2) a vector passes iff every LDE position reduces, modulo the
+   respective layer domain size, into the good set of every check, (3) exactly (D - U)^q of the D^q vectors pass, U = number
+   of LDE positions in the union of the preimages of the bad sets, and (4) (D - U)^q <= (D - bad_c * N^level)^q for every
+   single check c: the passing fraction is at most (1 - max_c bad_c / |domain_c|)^q. *)
+Theorem fri_query_counting_all_checks_partial : forall (cs : list (nat * (nat -> bool))) n k q, N <> 0 -> n <> 0 ->
+  (forall c, In c cs -> fst c <= k) ->
+  let D := n * N ^ k in
+  let U := length (filter (fun p => negb (pos_ok_checks cs n N k p)) (seq 0 D)) in
+  (forall ps, (forall p, In p ps -> p < D) -> pass_checks cs n N k ps = forallb (pos_ok_checks cs n N k) ps) /\
+  length (filter (pass_checks cs n N k) (vectors D q)) = (D - U) ^ q /\ length (vectors D q) = D ^ q /\
+  (forall i g, In (i, g) cs ->
+     (D - U) ^ q <= (D - length (filter (fun x => negb (g x)) (seq 0 (level_size n N k i))) * N ^ i) ^ q).
+Proof.
+  intros cs n k q HN Hn Hcs D U. split.
+  - intros ps Hps. now apply pass_checks_pointwise.
+  - exact (passing_vectors_all_checks cs n N k q HN Hn Hcs).
 Qed.
 End Check.
